@@ -879,6 +879,19 @@ def compare_with_ssh(case: Dict[str, Any], base: str) -> Tuple[str, List[Tuple[s
     return ('differs' if diffs else 'ok'), diffs
 
 
+_NOT_COMPARABLE = re.compile(
+    r'(?i)canonical|tagged|\btag\b|proxyjump|challengeresponse|forwardagent|\\|\bnone\b|%|\$|~|\'|'
+    r'^\s*host[ \t=].*,|^\s*match\b.*=', re.M)
+
+
+def ssh_comparable(case: Dict[str, Any]) -> bool:
+    """cases taken over from correspondence disagreements were not generated for the `ssh -G` comparison:
+    keep only those written with the constructs on which `ssh -G` output and asyncssh values are comparable
+    (no tokens - ssh prints most of them unexpanded -, no OpenSSH-only couplings, OpenSSH quoting only)"""
+    return not _NOT_COMPARABLE.search(all_text(case)) and len(case.get('main', [])) == 1 and \
+        case['target'].get('canon') is None
+
+
 def case_lines(case: Dict[str, Any]) -> List[Tuple[str, int]]:
     return [(rel, i) for rel, text in sorted(case['files'].items()) for i in range(len(text.split('\n')))]
 
@@ -943,7 +956,7 @@ def oracle_ssh(ctx: Ctx, rng: Any, scratch: str, hist: Hist, res: OracleResult) 
     cases = [json.loads(json.dumps(c)) for c in SSH_CORPUS]
     for s in ctx.suspects:
         c = s.get('case') if isinstance(s, dict) else None
-        if isinstance(c, dict) and c.get('cls') == 'client' and 'files' in c:
+        if isinstance(c, dict) and c.get('cls') == 'client' and 'files' in c and ssh_comparable(c):
             cases.append(json.loads(json.dumps(c)))
     for _ in range(ctx.n(250, 4000)):
         c = gen_client_case(rng, ssh_safe=True)
